@@ -42,7 +42,21 @@ type Exec struct {
 	RecordArgs      bool
 	inflight        int64
 	MaxInflight     int64
+	// cancellation point (C05): the CancelAt-th resolver invocation (1-based) cancels the operation
+	// context before it produces its result (or after, if CancelAfter); with HoldEarlier every
+	// earlier invocation stays in flight (bounded) until the cancellation happened
+	CancelAt    int64
+	CancelAfter bool
+	HoldEarlier bool
+	calls       int64
+	Cancelled   int64
 }
+
+// Inflight is the number of universal resolvers currently executing.
+func (e *Exec) Inflight() int64 { return atomic.LoadInt64(&e.inflight) }
+
+// Calls is the number of resolver invocations so far.
+func (e *Exec) Calls() int64 { return atomic.LoadInt64(&e.calls) }
 
 func NewExec(p *plan.Plan) *Exec { return &Exec{Plan: p} }
 
@@ -228,6 +242,28 @@ func (u *Universe) makeResolver(def *ast.Definition, fd *ast.FieldDefinition, ft
 			atomic.AddInt64(&e.inflight, -1)
 			e.Log("RE", path, nil)
 		}()
+		if e.CancelAt > 0 {
+			n := atomic.AddInt64(&e.calls, 1)
+			switch {
+			case n == e.CancelAt && !e.CancelAfter:
+				atomic.StoreInt64(&e.Cancelled, 1)
+				e.Cancel()
+				e.signal("cancelled")
+			case n == e.CancelAt:
+				defer func() {
+					atomic.StoreInt64(&e.Cancelled, 1)
+					e.Cancel()
+					e.signal("cancelled")
+				}()
+			case n < e.CancelAt && e.HoldEarlier:
+				select {
+				case <-e.gate("cancelled"):
+				case <-time.After(20 * time.Millisecond):
+				}
+			}
+		} else {
+			atomic.AddInt64(&e.calls, 1)
+		}
 		o := e.Plan.Get(path, !fd.Type.NonNull)
 		if y, sl, w, sg := e.Plan.Sched(path); y+sl > 0 || w != "" || sg != "" {
 			o.Yield, o.SleepUS, o.Wait, o.Signal = o.Yield+y, o.SleepUS+sl, w, sg
